@@ -485,8 +485,62 @@ def run(prog: Program) -> Results:
                                 f"{f.key}: the text before the closing `{sg.value[:1]}` ends with `{norm(x)[:60]}`, which uses the column recorded "
                                 f"from the input when there is one: after re-indenting a 4-space (or tab) source the `{sg.value[:1]}` stays at its "
                                 f"old column instead of the column of the line that opened it")
+    padded_at_render_indent(prog, res)
+    one_layout_per_gap(prog, res)
     res.assumptions = ["`;`/`:` attachment and exactly-one-space between tokens are value-level facts not decided here"]
     return res
+
+
+def padded_at_render_indent(prog: Program, res: Results) -> None:
+    """R-C18-13: a fragment rendered with `inline=True` carries no leading indent; where the renderer then pads it
+    (`" " * J + text`, `_ensure_indent(text, J)`), J is the indent the fragment was rendered with — otherwise the first line
+    and the lines inside the fragment (and its closing delimiter) are indented differently."""
+    from sa.cfg import CFG, ReachingDefs
+    from sa.util import Aliases
+    r = res.rule("R-C18-13", "a rendered fragment is padded to the indent it was rendered with: where `text = <child>.rebuild(indent=I, …)` "
+                 "(or a render helper taking `indent=`) is followed by `text = \" \" * J + text` / `_ensure_indent(text, J)`, I and J are "
+                 "the same expression", floor=3)
+    for f in prog.all_functions():
+        if not f.module.startswith("nix_manipulator/expressions/"):
+            continue
+        pads = []
+        for n in walk_no_nested(f.node):
+            if not (isinstance(n, ast.Assign) and len(n.targets) == 1 and isinstance(n.targets[0], ast.Name)):
+                continue
+            t, v = n.targets[0].id, n.value
+            j = None
+            if isinstance(v, ast.BinOp) and isinstance(v.op, ast.Add) and isinstance(v.right, ast.Name) and v.right.id == t:
+                l = v.left
+                if isinstance(l, ast.BinOp) and isinstance(l.op, ast.Mult) and isinstance(l.left, ast.Constant) and l.left.value == " ":
+                    j = l.right
+            elif isinstance(v, ast.Call) and callee(v) == "_ensure_indent" and v.args and isinstance(v.args[0], ast.Name) and v.args[0].id == t:
+                j = v.args[1] if len(v.args) > 1 else next((k.value for k in v.keywords if k.arg == "indent"), None)
+            if j is not None:
+                pads.append((n, t, j))
+        if not pads:
+            continue
+        cfg = CFG(f.node)
+        rd = ReachingDefs(cfg)
+        al = Aliases(f.node)
+        res.analysed_functions.add(f.key)
+        for n, t, j in pads:
+            at = cfg.node_of(n)
+            if at is None:
+                continue
+            for d in rd.defs_at(at, t):
+                if not (isinstance(d, ast.Assign) and isinstance(d.value, ast.Call)):
+                    continue
+                i = next((k.value for k in d.value.keywords if k.arg == "indent"), None)
+                if i is None or d is n:
+                    continue
+                r.instances += 1
+                ok = al.norm(i) == al.norm(j)
+                r.ob(ok, {"site": f.key, "rendered_at": norm(i)[:30], "padded_to": norm(j)[:30]})
+                if not ok:
+                    res.add("R-C18-13", (f.key, "fragment padded to another indent than it was rendered with", t), f.loc(d),
+                            f"{f.key}: `{norm(d)[:70]}` renders the fragment at indent `{norm(i)[:30]}`, but it is then padded to `{norm(j)[:30]}` "
+                            f"(`{norm(n)[:50]}`): the first line sits at one column while the lines inside the fragment and its closing "
+                            f"delimiter are laid out for another")
 
 
 def is_false(e) -> bool:
@@ -515,3 +569,51 @@ def _segments(n: ast.AST):
         flat(n)
         return parts
     return None
+
+
+def one_layout_per_gap(prog: Program, res: Results) -> None:
+    """R-C18-14: the separator before a child and the way the child itself is rendered are decided by the same layout value."""
+    from sa.cfg import CFG, ReachingDefs
+    r = res.rule("R-C18-14", "one layout per gap: where a renderer adjusts a layout local after reading it from the gap (forcing a new "
+                 "line when comments are present, clearing the blank-line flag), the separator formatter that receives the layout and "
+                 "the `<layout>.on_newline` test that selects how the following child is rendered see the same definitions of it — a "
+                 "separator computed from the stale value puts the child on the operator's line while the child is rendered with its "
+                 "own indentation", floor=2)
+    SEP = ("format_interstitial_trivia_with_separator", "separator_from_layout", "separator_from_layout_with_comments")
+    for f in prog.all_functions():
+        if not (f.cls and f.name in ("rebuild", "rebuild_scoped")) or f.parent is not None:
+            continue
+        layouts: dict = {}
+        for d in walk_no_nested(f.node):
+            if isinstance(d, ast.Assign) and len(d.targets) == 1 and isinstance(d.targets[0], ast.Name) and isinstance(d.value, ast.Call):
+                c = callee(d.value)
+                if c == "layout_from_gap" or (c == "model_copy" and isinstance(d.value.func, ast.Attribute) and isinstance(d.value.func.value, ast.Name)
+                                              and d.value.func.value.id == d.targets[0].id):
+                    layouts.setdefault(d.targets[0].id, []).append(d)
+        multi = {k: v for k, v in layouts.items() if len(v) >= 2 and any(callee(d.value) == "layout_from_gap" for d in v)}
+        if not multi:
+            continue
+        cfg = CFG(f.node)
+        rd = ReachingDefs(cfg)
+        for L in sorted(multi):
+            seps = [n for n in cfg.nodes if n.ast is not None and n.kind in ("stmt", "return") and any(
+                isinstance(c, ast.Call) and callee(c) in SEP and any(isinstance(a, ast.Name) and a.id == L for a in list(c.args) + [k.value for k in c.keywords])
+                for c in ast.walk(n.ast))]
+            tests = [n for n in cfg.nodes if n.kind == "test" and isinstance(getattr(n, "stmt", None), ast.If)
+                     and any(isinstance(a, ast.Attribute) and a.attr == "on_newline" and isinstance(a.value, ast.Name) and a.value.id == L for a in ast.walk(n.ast))
+                     and any(isinstance(c, ast.Call) and isinstance(c.func, ast.Attribute) and c.func.attr == "rebuild"
+                             for b in n.stmt.body + n.stmt.orelse for c in ast.walk(b))]
+            if not seps or not tests:
+                continue
+            res.analysed_functions.add(f.key)
+            for sn in seps:
+                r.instances += 1
+                ds = rd.defs_at(sn, L)
+                bad = [t for t in tests if rd.defs_at(t, L) != ds]
+                r.ob(not bad, {"site": f.key, "layout": L, "separator": norm(sn.ast)[:50]})
+                for t in bad:
+                    res.add("R-C18-14", (f.key, "separator and child rendered from different values of one layout", L), f.loc(sn.ast),
+                            f"{f.key}: `{norm(sn.ast)[:70]}` receives `{L}` as it is at that point, but `{norm(t.ast)[:50]}`, which selects how "
+                            f"the following child is rendered, sees another set of assignments to `{L}`: after the layout is forced onto a new "
+                            f"line (comments present) the separator still belongs to the same-line layout, so the child's own indentation "
+                            f"follows the comment on one line — more than one space between two tokens")
